@@ -1,6 +1,7 @@
 (* C07 - Every contract and result scores what the duplicate scoring table says.
    Only statements, each closed by [exact]; see Proofs/C07.v. *)
-From BE Require Import Model.Score Spec.Duplicate Spec.Domains Gen.ScoreGraph Gen.ScoreFns Proofs.C07 Proofs.ScoreGen Proofs.ScoreGenCor.
+From BE Require Import Model.Score Spec.Duplicate Spec.Domains Gen.ScoreGraph Gen.ScoreFns Proofs.C07 Proofs.ScoreGen Proofs.ScoreGenCor Proofs.ScoreConstsPin.
+From BE Require Gen.ScoreConsts Model.ScoreConstsHand.
 Open Scope Z_scope.
 
 (* the model equals the running implementation on the complete domain (tie, kernel-checked) *)
@@ -47,3 +48,31 @@ Print Assumptions C07_all_contracts_generated.
 Theorem C07_passed_out_generated : forall x xx v d t, g_calc_score (mkcontract None x xx v d) t = Some 0.
 Proof. exact g_passed_out_zero. Qed.
 Print Assumptions C07_passed_out_generated.
+
+(* every number of score.py, re-read from the source on this run, is the number the model uses *)
+Theorem C07_source_constants_are_the_modelled_ones :
+  Gen.ScoreConsts.k_minor = Model.ScoreConstsHand.k_minor /\
+  Gen.ScoreConsts.k_major = Model.ScoreConstsHand.k_major /\
+  Gen.ScoreConsts.k_nt = Model.ScoreConstsHand.k_nt /\
+  Gen.ScoreConsts.k_make = Model.ScoreConstsHand.k_make /\
+  Gen.ScoreConsts.k_make_x = Model.ScoreConstsHand.k_make_x /\
+  Gen.ScoreConsts.k_make_xx = Model.ScoreConstsHand.k_make_xx /\
+  Gen.ScoreConsts.k_game = Model.ScoreConstsHand.k_game /\
+  Gen.ScoreConsts.k_game_vul = Model.ScoreConstsHand.k_game_vul /\
+  Gen.ScoreConsts.k_small_slam = Model.ScoreConstsHand.k_small_slam /\
+  Gen.ScoreConsts.k_small_slam_vul = Model.ScoreConstsHand.k_small_slam_vul /\
+  Gen.ScoreConsts.k_grand_slam = Model.ScoreConstsHand.k_grand_slam /\
+  Gen.ScoreConsts.k_grand_slam_vul = Model.ScoreConstsHand.k_grand_slam_vul /\
+  Gen.ScoreConsts.k_overtrick_x = Model.ScoreConstsHand.k_overtrick_x /\
+  Gen.ScoreConsts.k_overtrick_x_vul = Model.ScoreConstsHand.k_overtrick_x_vul /\
+  Gen.ScoreConsts.k_overtrick_xx = Model.ScoreConstsHand.k_overtrick_xx /\
+  Gen.ScoreConsts.k_overtrick_xx_vul = Model.ScoreConstsHand.k_overtrick_xx_vul /\
+  Gen.ScoreConsts.k_down = Model.ScoreConstsHand.k_down /\
+  Gen.ScoreConsts.k_down_vul = Model.ScoreConstsHand.k_down_vul /\
+  Gen.ScoreConsts.k_down_x = Model.ScoreConstsHand.k_down_x /\
+  Gen.ScoreConsts.k_down_x_vul = Model.ScoreConstsHand.k_down_x_vul /\
+  Gen.ScoreConsts.k_down_xx = Model.ScoreConstsHand.k_down_xx /\
+  Gen.ScoreConsts.k_down_xx_vul = Model.ScoreConstsHand.k_down_xx_vul /\
+  Gen.ScoreConsts.k_imps_list = Model.ScoreConstsHand.k_imps_list.
+Proof. exact score_constants_pinned. Qed.
+Print Assumptions C07_source_constants_are_the_modelled_ones.
